@@ -90,8 +90,9 @@ CHECKS = {
         "reference by (root, text); (b) the real parser.Parse on one API written as a root plus an external document with 10 reference sites (into the other file, root-relative after a reference into the other "
         "file, relative inside the external file, shared targets, recursive schemas): for every symbolic keep/inline choice (four 5-site subsets quick, all 1024 thorough) the parsed API is the same, same-named "
         "components of the two files (names symbolic) are not confused, reference cycles between non-schema components and dangling references are refused, schema cycles and the same pointer in two files are "
-        "accepted. One hand-written reference graph; external schema references, generated code for the two variants and the dereferenced-spec clause are NOT decided.",
-   design="4 C07", technique="symbolic execution of go/ssa + SMT: one inductive step of the cycle/depth kernel from reachable pre-states; parser.Parse under symbolic inline choices and component names with stubbed YAML environment"),
+        "accepted; Parse -> parser.Expand -> Parse gives the same API (dereferenced-spec clause, recursive schemas included). One hand-written reference graph; external SCHEMA references and the generated code "
+        "for referenced vs inlined documents are NOT decided. Concrete side-condition (not solver-decided): 53 schema-cycle shapes are generated by the tree's generator and must build (recursive types).",
+   design="4 C07", technique="symbolic execution of go/ssa + SMT: one inductive step of the cycle/depth kernel from reachable pre-states; parser.Parse / Expand under symbolic inline choices and component names with stubbed YAML environment; concrete generate-and-build of cycle shapes"),
  "C11": dict(
    text="Bounded symbolic model checking of totality (no panic, termination) of the parser: (a) parser.Parse executed from SSA on a valid OpenAPI 3.1 skeleton that uses every component kind, where a "
         "symbolic selector applies one of 66 single-node faults (null / empty / dropped part) and, separately, 19 scalar fields (status key, parameter location/style/name, media-type key, schema type/format, "
